@@ -216,8 +216,11 @@ fn check_standard(input: &[u8], pat: &str, c: &Cfg9, re: &regex::bytes::Regex) -
     let mut cursor = 0usize; // for the subsequence check when no coordinate is printed
     let mut block_hist: Vec<(usize, bool)> = vec![];
     let mut known = false;
+    // (once the line of one record cannot be identified, the block structure
+    // the later column checks rely on is unknown as well: no column is judged
+    // from there on)
+    let mut ambiguous = false;
     for r in recs.iter() {
-        let mut ambiguous = false;
         // locate the line this record claims to be
         let idx = if let Some(n) = r.line {
             if n == 0 || n as usize > lines.len() {
@@ -233,7 +236,7 @@ fn check_standard(input: &[u8], pat: &str, c: &Cfg9, re: &regex::bytes::Regex) -
             // no coordinate: the printed lines must be a subsequence (when
             // several later lines have the printed text, which of them was
             // printed cannot be told: the column is then not judged)
-            ambiguous = (cursor..lines.len()).filter(|&i| shown(&input[lines[i].0..lines[i].1], c.crlf) == r.text).count() > 1;
+            ambiguous |= (cursor..lines.len()).filter(|&i| shown(&input[lines[i].0..lines[i].1], c.crlf) == r.text).count() > 1;
             match (cursor..lines.len()).find(|&i| shown(&input[lines[i].0..lines[i].1], c.crlf) == r.text) {
                 Some(i) => i,
                 None => return Err(format!("printed text {:?} is not a (later) line of the input", esc(&r.text))),
